@@ -141,4 +141,7 @@ def check(run):
     run.clause('reports come from the NAT-visible field: reader table of the true endpoints channel::ep (shared with C07)')
     import p07
     p07.ep_readers_rule(run)
+    run.clause("a connection's segments cross the NAT of their own sender: the channel's two routes are composed from the right sockets' routes (shared with C09)")
+    import p09 as _p09
+    _p09.channel_orientation_rules(run)
     run.floor('R2', 4)
